@@ -11,7 +11,7 @@
      6. histories                                                    (run, history_ok, history_produced_wf) *)
 From Coq Require Import List NArith ZArith Bool Lia.
 From UP Require Import Base.Chars Model.Uri Model.Common Model.Compare Model.Resolve Model.Shorten
-  Model.Parse Model.Normalize Spec.NormalWf Spec.Resolve Spec.Split
+  Model.Parse Model.Normalize Model.History Spec.NormalWf Spec.Resolve Spec.Split
   Proofs.DotSegments Proofs.ResolveProofs Proofs.ShortenProofs Spec.Unparse Spec.Reread.
 From UP Require Base.Regex Spec.Rfc3986.
 Import ListNotations.
@@ -544,3 +544,81 @@ Proof.
   - intros Hh. destruct Hh. reflexivity.
   - intros _. destruct (walk_reference_ok b s Hs) as [H1 H2]. split; [exact H1|intros _; exact H2].
 Qed.
+
+(* ---------------------------------------------------------------- 6. histories *)
+Section Histories.
+  (* what the other parts of C07 establish: parsing produces [produced_wf] objects; normalization keeps
+     the condition where [norm_ok] holds (everywhere but on the known defect shapes); so does make-owner *)
+  Variable norm_ok : N -> uri -> Prop.
+  Hypothesis parse_wf : forall s u, parse s = POk u -> produced_wf u.
+  Hypothesis normalize_wf : forall mask u, produced_wf u -> norm_ok mask u -> produced_wf (normalize mask u).
+  Hypothesis make_owner_wf : forall u, produced_wf u -> produced_wf (make_owner u).
+
+  Definition all_wf (st : store) : Prop := forall i u, st i = Some u -> produced_wf u.
+
+  Lemma all_wf_put st i o : all_wf st -> (forall u, o = Some u -> produced_wf u) -> all_wf (put st i o).
+  Proof.
+    intros Hst Ho j u Hj. unfold put in Hj. destruct (Nat.eqb j i); [apply Ho; exact Hj|apply (Hst j); exact Hj].
+  Qed.
+
+  Lemma on_success_inv r u : on_success r = Some u -> r = (URI_SUCCESS, u).
+  Proof.
+    unfold on_success. destruct r as [rc x]. cbn [fst snd].
+    destruct (rc =? URI_SUCCESS) eqn:E; [|discriminate]. apply N.eqb_eq in E. intros H. injection H as Hx. subst. reflexivity.
+  Qed.
+
+  Lemma step_wf st op : all_wf st ->
+    match op with
+    | SNormalize i mask => match st i with Some u => norm_ok mask u | None => True end
+    | _ => True
+    end ->
+    all_wf (run_step st op).
+  Proof.
+    intros Hst Hok. destruct op as [i s|d r b compat|d s b dr|i mask|i|i]; cbn [run_step].
+    - apply all_wf_put; [exact Hst|]. intros u Hu. destruct (parse s) as [u'|pos] eqn:Ep; [|discriminate Hu].
+      injection Hu as Hu. subst u'. apply (parse_wf s). exact Ep.
+    - destruct (st r) as [ur|] eqn:Er; [|exact Hst]. destruct (st b) as [ub|] eqn:Eb; [|exact Hst].
+      apply all_wf_put; [exact Hst|]. intros u Hu. apply on_success_inv in Hu.
+      apply (add_base_produced_wf compat ur ub u); [apply (Hst r); exact Er|apply (Hst b); exact Eb|exact Hu].
+    - destruct (st s) as [us|] eqn:Es; [|exact Hst]. destruct (st b) as [ub|] eqn:Eb; [|exact Hst].
+      apply all_wf_put; [exact Hst|]. intros u Hu. apply on_success_inv in Hu.
+      apply (remove_base_produced_wf dr us ub u); [apply (Hst s); exact Es|apply (Hst b); exact Eb|exact Hu].
+    - destruct (st i) as [u0|] eqn:Ei; [|exact Hst].
+      apply all_wf_put; [exact Hst|]. intros u Hu. injection Hu as Hu. subst u.
+      apply normalize_wf; [apply (Hst i); exact Ei|exact Hok].
+    - destruct (st i) as [u0|] eqn:Ei; [|exact Hst].
+      apply all_wf_put; [exact Hst|]. intros u Hu. injection Hu as Hu. subst u.
+      apply make_owner_wf. apply (Hst i). exact Ei.
+    - apply all_wf_put; [exact Hst|]. intros u Hu. discriminate Hu.
+  Qed.
+
+  Lemma run_wf ops : forall st, all_wf st -> normalize_steps_ok norm_ok st ops -> all_wf (run st ops).
+  Proof.
+    induction ops as [|op r IH]; intros st Hst Hok; [exact Hst|].
+    cbn [normalize_steps_ok] in Hok. destruct Hok as [Hop Hr].
+    unfold run. cbn [fold_left]. apply IH; [apply step_wf; assumption|exact Hr].
+  Qed.
+
+  Theorem history_produced_wf_section ops i u :
+    normalize_steps_ok norm_ok empty_store ops -> run empty_store ops i = Some u -> produced_wf u.
+  Proof.
+    intros Hok Hi. apply (run_wf ops empty_store) with (i := i); [|exact Hok|exact Hi].
+    intros j v Hj. discriminate Hj.
+  Qed.
+End Histories.
+
+(* R3: every object in the store after any finite history of parse, resolve, create-reference, normalize,
+   make-owner and free steps from the empty store satisfies produced_wf -- given that parsing produces such
+   objects and that normalization (where [norm_ok] admits it) and make-owner keep the condition *)
+Theorem history_produced_wf (norm_ok : N -> uri -> Prop) :
+  (forall s u, parse s = POk u -> produced_wf u) ->
+  (forall mask u, produced_wf u -> norm_ok mask u -> produced_wf (normalize mask u)) ->
+  (forall u, produced_wf u -> produced_wf (make_owner u)) ->
+  forall ops, normalize_steps_ok norm_ok empty_store ops ->
+  forall i u, run empty_store ops i = Some u -> produced_wf u.
+Proof.
+  intros Hp Hn Hm ops Hok i u Hi. exact (history_produced_wf_section norm_ok Hp Hn Hm ops i u Hok Hi).
+Qed.
+
+(* for Examples: the object the parser builds for a text (the empty object when it does not parse) *)
+Definition parsed (t : text) : uri := match parse t with POk u => u | PSyntax _ => empty_uri end.
